@@ -121,8 +121,8 @@ def op_alloc(op):
     from frame.allocation.allocation import Allocation
     try:
         a = Allocation([(mk_rect(c[0]), {m: q for m, q in c[1]}, c[2]) for c in op["cells"]])
-    except EXPECTED as e:
-        return err(e)
+    except EXPECTED:
+        return {"raised": "rejected"}       # the constructor refuses the cells (whatever the assertion)
     out = {"init": alloc_obs(a), "steps": []}
     for o in op.get("ops", []):
         try:
@@ -135,8 +135,8 @@ def op_alloc(op):
             elif o[0] == "mbr":
                 out["steps"].append(bool(a.must_be_refined(o[1])))
                 continue
-        except EXPECTED as e:
-            out["steps"].append(err(e))
+        except EXPECTED:
+            out["steps"].append({"raised": "rejected"})
             break
         out["steps"].append(alloc_obs(a))
     return out
